@@ -284,10 +284,12 @@ func (c *container) sendLoop() {
 			if !ok {
 				return
 			}
+			verifPoint(vpHostSendPre, int(cmd.Cmd.Cmd))
 			if err := c.socket.SendMsg(cmd.Cmd, cmd.Msg); err != nil {
 				c.socketError(err)
 				return
 			}
+			verifPoint(vpHostSendPost, int(cmd.Cmd.Cmd))
 		}
 	}
 }
@@ -300,6 +302,7 @@ func (c *container) recvLoop() {
 			c.socketError(err)
 			return
 		}
+		verifMsg(vpHostRecv, &reply, &msg)
 		c.recvCh <- recvReply{
 			Reply: reply,
 			Msg:   msg,
